@@ -114,6 +114,11 @@ def fd_job(job):
 
 
 MARK = {"hook": 7.0, "assign": 11.0, "attr": 13.0}
+# the two distinct request times and time 0 of DiffRHS.tla, placed on the time axis in three ways: moderate, far from the origin and
+# close together relative to their size, and tiny ("varying t" of the property is any t: a request is answered AT the requested time)
+PALETTES = [{"jac1": 1.25, "jac2": -2.5, "jac0": 0.0},
+            {"jac1": 2.0e5, "jac2": 2.0e5 + 0.75, "jac0": 0.0},
+            {"jac1": 3.0e-9, "jac2": -1.0e-9, "jac0": 0.0}]
 
 
 def dispatch_job(h):
@@ -129,11 +134,12 @@ def dispatch_job(h):
         return np.array([[-(1.0 + t * t) * y[1], -(1.0 + t * t) * y[0]], [0.0, -3.0 * y[1] ** 2]])
     if attr:
         rhs.jac = lambda t, y: MARK["attr"] * np.ones((2, 2))
-    out = {"kind": "dispatch", "ops": ops, "attr": attr, "expect": h["expect"], "ran": False, "got": [], "njev": -1, "nfevOk": False}
+    out = {"kind": "dispatch", "ops": ops, "attr": attr, "expect": h["expect"], "ran": False, "got": [], "njev": -1, "nfevOk": False,
+           "palette": h.get("palette", 0)}
     try:
         w = de.DiffRHS(rhs)
         y = np.array([0.7, -0.4])
-        times = {"jac1": 1.25, "jac2": -2.5, "jac0": 0.0}
+        times = PALETTES[h.get("palette", 0)]
         got = []
         for op in ops:
             if op in times:
@@ -148,7 +154,7 @@ def dispatch_job(h):
                 rec = {"by": by, "timesOk": all(tt == t for tt, _ in mine), "stateOk": all(np.max(np.abs(yy - y)) <= 1.0 for _, yy in mine),
                        "valueOk": True, "nevals": len(mine)}
                 if by == "fd":
-                    rec["valueOk"] = bool(J.shape == (2, 2) and np.max(np.abs(J - true_jac(t, y))) <= 1e-7 and len(mine) > 0)
+                    rec["valueOk"] = bool(J.shape == (2, 2) and np.max(np.abs(J - true_jac(t, y))) <= 1e-7 * max(1.0, float(np.max(np.abs(true_jac(t, y))))) and len(mine) > 0)
                 got.append(rec)
             elif op == "hook":
                 w.hook_jacobian_call(lambda t, y: MARK["hook"] * np.ones((2, 2)))
@@ -167,11 +173,16 @@ def dispatch_job(h):
 def check(run, replay=None):
     thorough = run.tier == "thorough"
     run.rule = ("finite differences: map (6 sizes x linear/quadratic) x point set (5, incl. zeros, small and large components) x dtype x array shapes x "
-                "base order; dispatch: every history of {request at t1, t2, 0; hook; assign; unhook} up to length 4 (5 in thorough) x attribute present/absent; "
+                "base order; dispatch: every history of {request at t1, t2, 0; hook; assign; unhook} up to length 4 (5 in thorough) x attribute present/absent, "
+                "with (t1, t2) moderate / far from the origin and close together / tiny (one placement per history in quick, all three in thorough); "
                 "non-trivial = quadratic map / history with at least two requests; distinct by case")
     run.mc("DiffRHS", workers=4)
     maps = run.generate("JacMaps", workers=2)["cases"]
     hist = run.generate("DiffRHSGen", "DiffRHSGen_thorough" if thorough else "DiffRHSGen")["histories"]
+    if thorough:
+        hist = [dict(h, palette=p) for h in hist for p in range(len(PALETTES))]
+    else:
+        hist = [dict(h, palette=(k + run.seed) % len(PALETTES)) for k, h in enumerate(hist)]
     jobs = []
     for c in maps:
         for dtn in ("float64", "longdouble") + (("float32",) if thorough else ()):
@@ -207,7 +218,7 @@ def check(run, replay=None):
             sig = "fd m=%d n=%d %s %s x%s f%s base=%s%s X=%s" % (o["m"], o["n"], o.get("family") or ("linear" if o["lin"] else "quadratic"), o["dtype"], o["xshape"], o["fshape"], o["base"], "" if o.get("adaptive", True) else " non-adaptive", o["X"])
             det = {"units": o["units"], "error": o.get("error"), "k": b.get("k")}
         else:
-            sig = "dispatch attr=%s ops=%s" % (o["attr"], ",".join(o["ops"]))
+            sig = "dispatch attr=%s times=%s ops=%s" % (o["attr"], o.get("palette", 0), ",".join(o["ops"]))
             det = {"got": o["got"], "expect": o["expect"], "njev": o["njev"], "error": o.get("error"), "k": b.get("k")}
         run.violation(b["clause"], sig, det, replay=None)
     run.exhaustive = True
